@@ -500,6 +500,8 @@ func checkC04(c *km.Ctx) {
 		r.Add("R-C04-2", short(k.typ), "producer exists for kind "+k.key+"="+k.val, "-", "the kind's own producer writes exactly the constant its consumer checks", sprintf("%d producer(s)", intended), intended >= 1)
 	}
 
+	c04CurrentType = KMD + ".authInfoJWT"
+	checkNoSideEffectOnRefusal(c, s)
 	c04CurrentType = ""
 	// ---------- R-C04-4
 	checkExpiry(c, s, consumers)
@@ -1095,4 +1097,48 @@ func isIssuerValue(c *km.Ctx, v ssa.Value, depth int) bool {
 		}
 	}
 	return true
+}
+
+// checkNoSideEffectOnRefusal: "rejected without side effects" for the session-level upgrade: the function that
+// re-signs the cookie writes to the response (Set-Cookie, directly or through a cookie-writing helper) only on
+// paths on which the re-signing of the presented cookie succeeded. A cookie written first and the error looked at
+// afterwards blanks the browser's session when the presented cookie was refused.
+func checkNoSideEffectOnRefusal(c *km.Ctx, s *km.Sem) {
+	r := c.R
+	upd := c.MustFunc("R-C04-2", "cmd/keymasterd", "(*RuntimeState).updateAuthCookieAuthlevel")
+	if upd == nil {
+		return
+	}
+	resignOK := primErrNil("re-signing succeeded", RS+"updateAuthJWTWithNewAuthLevel", 1)
+	writesCookie := func(g *ssa.Function) bool {
+		if g == nil || g.Blocks == nil {
+			return false
+		}
+		for _, ci := range km.CallsIn(g) {
+			if km.CalleeFull(ci.Common()) == "net/http.SetCookie" {
+				return true
+			}
+		}
+		return false
+	}
+	n := 0
+	for _, ci := range km.CallsIn(upd) {
+		name := km.CalleeFull(ci.Common())
+		isWrite := name == "net/http.SetCookie" || (strings.HasSuffix(name, "Header).Set") || strings.HasSuffix(name, "Header).Add"))
+		if !isWrite {
+			if g := km.StaticCallee(ci.Common()); g != nil && c.InModule(g) && writesCookie(g) {
+				isWrite = true
+			}
+		}
+		if !isWrite {
+			continue
+		}
+		n++
+		st := c.F.At(ci)
+		ok := len(st) > 0 && st.All(func(k km.Conj) bool { return s.Holds(k, resignOK) })
+		r.Add("R-C04-2", km.FuncName(upd), "cookie written only after the presented one was accepted", posOf(c, ci), "Set-Cookie (directly or through a helper) only on paths where updateAuthJWTWithNewAuthLevel returned no error", clipS(st.String(), 200), ok)
+	}
+	if n == 0 {
+		r.AnchorLost("R-C04-2", "cookie write in updateAuthCookieAuthlevel")
+	}
 }
